@@ -11,10 +11,21 @@ World configurations (each searched separately; a witness names its cfg):
                 ChatFromSimulator / StartPingCheck / "*", region-level ChatFromSimulator / "*".  Full alphabet.
   shared        as solo plus a sync region-level StartPingCheck subscriber (shares the Event with the async handler).
                 Peer packets are pings only (the chat half would repeat cfg solo).
-  prehandshake  circuit left as open_circuit() creates it (is_alive=False: UseCircuitCode still in flight); no peer
-                packets.  A regular, asserted cfg: reliable sends on a not-yet-alive circuit are retransmitted and fail at
-                budget like any other (fixed in repo 3009fa0); its cadence/budget clauses keep their own site
-                (..._attempt_resends:circuit-not-alive), the narrowest name of where that went wrong.
+  prehandshake  circuit left as open_circuit() creates it (is_alive=False: UseCircuitCode still in flight).  Peer packets
+                (chat, ids 1..2, reliable/unreliable, duplicates) arrive on the not-yet-alive circuit -- the sim's first
+                reliable packet reordered ahead of the UseCircuitCode ack, or traffic during a re-connect() -- and the event
+                ("H",) "handshake completes" (what connect() does once that ack is in: is_alive = True) lets histories
+                cross the boundary in both orders.  The code documents nothing special for that phase:
+                datagram_received serves every region that has a circuit and never looks at is_alive, and its comment says
+                "We should ACK even if it's a resend"; so the statement's receive clauses (always ack, dedupe, delivery)
+                are asserted unchanged, and reliable sends are retransmitted / fail at budget like on a live circuit
+                (repo 3009fa0); the overdue clauses keep their own site (..._attempt_resends:circuit-not-alive).
+  selfunsub     as shared (sync subscribers on every Event, both levels), but on each of the six Events a subscriber that
+                removes itself while being notified is registered AHEAD of the persistent one: a wait_for() waiter
+                (session chat, region ping -- the mechanism HippoClientRegion.connect() uses for RegionHandshake; connect()
+                itself needs HTTP and is not run), a one_shot subscription (session ping, region "*"), a handler returning
+                True (session "*", region chat).  Oracle unchanged: the persistent subscriber sees every first receipt /
+                every unreliable receipt exactly once.  Thin send side (one send_reliable, no AB/SP/unreliable send).
 
 Alphabet (events are tuples; the last field of R/AP/AA is the deviation tag):
   ("R", p, kind, rel, resent, defer, dev)
@@ -113,6 +124,7 @@ LOGIN = {
     "seed_capability": "https://127.0.0.1:4/foo",
 }
 PEER_IDS = (1, 2, 3)
+CFGS = ("solo", "shared", "prehandshake", "selfunsub")
 CARRIER_BASE = 100
 F_ZERO, F_REL, F_RESENT, F_ACK = 0x80, 0x40, 0x20, 0x10
 EPS = 1e-6
@@ -251,17 +263,37 @@ class World:
         assert self.session.open_circuit(ADDR)
         self.region = self.session.regions[-1]
         self.circuit = self.region.circuit
+        self.alive = cfg != "prehandshake"
         if cfg != "prehandshake":
             self.circuit.is_alive = True  # region.connect() sets this after the UseCircuitCode ack
         self.interval = float(self.circuit.resend_every)
         self.ticks = {"short": self.interval / 3.0, "past": self.interval + 0.5, "long": (BUDGET - 1) * self.interval}
         # --- subscribers: sync, both levels, by name and wildcard (the async one is the built-in ping handler) ----
         self.log: List[Tuple[str, str, str, int]] = []
+        self.selfunsub_fired: List[Tuple[str, str, str]] = []
+        self.waiters: List[Any] = []
+        forms = {("session", "ChatFromSimulator"): "wait_for", ("session", "StartPingCheck"): "one_shot",
+                 ("session", "*"): "returns-true", ("region", "ChatFromSimulator"): "returns-true",
+                 ("region", "StartPingCheck"): "wait_for", ("region", "*"): "one_shot"}
+        self.events = []
         for level, handler in (("session", self.session.message_handler), ("region", self.region.message_handler)):
             for key in ("ChatFromSimulator", "StartPingCheck", "*"):
                 if key == "StartPingCheck" and level == "region" and cfg == "solo":
                     continue  # cfg "solo": the built-in async handler is the only subscriber of that region-level Event
+                if cfg == "selfunsub":
+                    # a subscriber that removes itself while being notified, registered AHEAD of the persistent one
+                    # (what every wait_for() does -- e.g. HippoClientRegion.connect() waiting for RegionHandshake --,
+                    # one_shot subscriptions, and handlers returning a truthy value)
+                    form = forms[(level, key)]
+                    fired = self._make_selfunsub(level, key, form)
+                    if form == "wait_for":
+                        self.waiters.append(handler.wait_for((key,)))
+                    elif form == "one_shot":
+                        handler.register(key).subscribe(fired, one_shot=True)
+                    else:
+                        handler.subscribe(key, fired)
                 handler.subscribe(key, self._make_sub(level, "*" if key == "*" else "name"))
+                self.events.append(handler.register(key))
         self.loop.run_ready()  # start the resend task (first poll, then sleeping)
         # --- reference model -----------------------------------------------------------------------------
         self.violations: List[Dict[str, Any]] = []
@@ -285,6 +317,12 @@ class World:
         self.retransmissions = 0
         self.completions = 0
 
+    def _make_selfunsub(self, level, key, form):
+        def _leaver(msg):
+            self.selfunsub_fired.append((level, key, form))
+            return form == "returns-true"
+        return _leaver
+
     def _make_sub(self, level, which):
         def _sub(msg):
             self.log.append((level, which, msg.name, msg.packet_id))
@@ -297,9 +335,13 @@ class Harness:
     copyable = False
 
     def __init__(self, cfg: str = "solo", mute=(), max_sr: int = MAX_SR, max_su: int = MAX_SU, max_sp: int = MAX_SP):
-        assert cfg in ("solo", "shared", "prehandshake")
+        assert cfg in CFGS
         self.cfg = cfg
-        self.kinds = {"solo": ("chat", "ping"), "shared": ("ping",), "prehandshake": ()}[cfg]
+        self.kinds = {"solo": ("chat", "ping"), "shared": ("ping",), "prehandshake": ("chat",),
+                      "selfunsub": ("chat", "ping")}[cfg]
+        self.peer_ids = PEER_IDS if cfg != "prehandshake" else PEER_IDS[:2]
+        if cfg == "selfunsub":  # differs from solo/shared on the dispatch side only: a thin send side suffices
+            max_sr, max_su, max_sp = min(max_sr, 1), 0, 0
         self.site_resend = SITE_RESEND if cfg != "prehandshake" else SITE_RESEND_NOT_ALIVE
         self.mute = set(tuple(m) for m in mute)
         self.max_sr, self.max_su, self.max_sp = max_sr, max_su, max_sp
@@ -317,9 +359,10 @@ class Harness:
     # ---- alphabet ---------------------------------------------------------------------------------------
     def enabled(self, w: World):
         evs: List[tuple] = []
-        missing_below = [p for p in PEER_IDS if p < w.max_peer and p not in w.peer]
-        new_ids = [p for p in (w.max_peer + 1, w.max_peer + 2) if p in PEER_IDS] + missing_below[-1:]
-        for p in PEER_IDS:
+        ids = self.peer_ids
+        missing_below = [p for p in ids if p < w.max_peer and p not in w.peer]
+        new_ids = [p for p in (w.max_peer + 1, w.max_peer + 2) if p in ids] + missing_below[-1:]
+        for p in ids:
             if p in w.peer:
                 kind, rel = w.peer[p]
                 if kind == "chat":
@@ -359,12 +402,12 @@ class Harness:
         # non-empty appendix -- appendix-only, disjoint splits, overlapping; (body-only is AP above)
         # (not in cfg shared, which differs from solo on the receive/dispatch side only)
         subsets = [tuple(outstanding[i] for i in range(n) if mask >> i & 1) for mask in range(0, 1 << n)]
-        for body in (subsets if self.cfg != "shared" else ()):
+        for body in (subsets if self.cfg in ("solo", "prehandshake") else ()):
             for app in subsets[1:]:
                 disjoint_split = bool(body) and not set(body) & set(app)
                 evs.append(("AB", body, app, 0 if disjoint_split else 1))
         # sends of a Message that already carries a packet_id
-        if w.n_sp < self.max_sp and self.cfg != "shared":
+        if w.n_sp < self.max_sp and self.cfg in ("solo", "prehandshake"):
             last = w.last_issued
             whiches = ["zero"] + (["last"] if last is not None else []) + (["last-1"] if last else []) + ["last+50"]
             for which in whiches:
@@ -373,6 +416,8 @@ class Harness:
                     evs.append(("SP", which, rel, 1))
             if w.echo_msg is not None:
                 evs.append(("SP", "echo", 1 if int(w.echo_msg.send_flags) & F_REL else 0, 1))
+        if not w.alive:
+            evs.append(("H",))  # the handshake completes: connect() marks the circuit alive
         if w.n_sr < self.max_sr:
             # ack for the id the client will issue next, then (maybe) the send itself
             evs.append(("AP", (w.circuit.packet_id_base if w.last_issued is None else w.last_issued + 1,), 1))
@@ -410,6 +455,7 @@ class Harness:
         return (tuple(c.seen_reliable), c.packet_id_base, unacked, c.is_alive, ready, timers,
                 tuple(sorted(w.peer.items())), w.max_peer, sends, w.n_sends - w.n_sr, w.n_sr, w.n_sp,
                 (w.echo_msg.name, int(w.echo_msg.send_flags) & F_REL) if w.echo_msg is not None else None,
+                tuple(len(e) for e in w.events), w.alive,
                 w.last_issued,
                 self.stale_id(w), tuple(sorted(w.ack_debt)), tuple(sorted(w.ping_owed.items())),
                 tuple(sorted(w.ping_seen.items())))
@@ -704,6 +750,10 @@ class Harness:
                 loop = w.loop
                 fut.add_done_callback(lambda f, rec=rec, loop=loop: rec.__setitem__("done_at", loop.time()))
                 w.rsends.append(rec)
+        elif kind == "H":
+            # what HippoClientRegion.connect() does once the ack for UseCircuitCode is in
+            w.circuit.is_alive = True
+            w.alive = True
         elif kind == "T":
             w.loop.advance(w.ticks[ev[1]])
         else:  # pragma: no cover
@@ -742,10 +792,16 @@ def run(run: Run):
         "'solo' (region-level StartPingCheck Event holds only the built-in async handler; chat+ping alphabet) and "
         "'shared' (a sync region-level StartPingCheck subscriber shares that Event; ping-only alphabet); plus "
         "'prehandshake' (circuit left as open_circuit() creates it, is_alive=False, i.e. while UseCircuitCode is in "
-        f"flight; no peer packets; asserted like the others, overdue-clauses carry the site {SITE_RESEND_NOT_ALIVE!r}); "
+        "flight; chat packets with ids 1..2 arrive before and after the event 'handshake completes' = is_alive:=True as "
+        "connect() does; the code documents no special treatment of traffic on a not-yet-alive circuit -- "
+        "datagram_received never reads is_alive -- so ack/dedupe/delivery are asserted as on a live circuit; "
+        f"overdue-clauses carry the site {SITE_RESEND_NOT_ALIVE!r}); 'selfunsub' (a wait_for waiter / one_shot / "
+        "returns-True subscriber registered ahead of the persistent subscriber on each Event, both levels; "
+        "connect()'s own RegionHandshake wait_for is represented by the same mechanism on ChatFromSimulator / "
+        "StartPingCheck, connect() itself is not run); "
         f"at most {MAX_SP} send of a Message with a preset packet_id per history")
     muted_all = {}
-    for cfg in ("solo", "shared", "prehandshake"):
+    for cfg in CFGS:
         n0, keys0 = len(run.violations), dict(run._viol_keys)
         d = depth
         # pass 1 (all clauses) runs to the quick horizon: it names the (clause, site) pairs that fail on this tree.
